@@ -7,6 +7,7 @@ import sys
 from .. import common, gen, parsing
 
 LEVEL = "proof"
+EXTRA_LEAN_MODULES = ["Luqum.Props.GenGlue"]   # the parse wrappers are pass-through (translated)
 RULE = ("histories of 2-8 parse calls on one process mixing valid queries, syntax errors, illegal characters and "
         "malformed numerals (about half malformed), through both entry points (module parser, thread wrapper); "
         "each outcome is compared with the outcome of the same string in a forked child whose lexer never "
@@ -34,12 +35,17 @@ def make_histories(ctx, n):
     rng = ctx.rng
     hs = []
     nasty = ["a^.", "a~.", "a^1.2.3", "\"a\"~1.5", "\"a\"~2.0", "a '", "'", "(a", "a)", "[a TO", "a AND", "",
-             " ", "\\", "a\\", "\"abc", "/abc", "a:", ":a", "a^2^", "~", "^", "a~~", "\"a\"~" + "9" * 50, "a b '"]
+             " ", "\\", "a\\", "\"abc", "/abc", "a:", ":a", "a^2^", "~", "^", "a~~", "\"a\"~" + "9" * 50, "a b '",
+             # numerals beyond the decimal context's precision (a call must not change how later calls round), an
+             # escaped line break inside a token, blank-only inputs
+             "k^1." + "123456789" * 5, "a~0." + "987654321" * 4, "b^" + "7" * 33, "c~0.1234567890123456789012345678901234",
+             "\"a\\\nb\"", "/a\\\nb/", "a\\\nb", "\\\nb", "   ", "\t\n"]
     for i in range(n):
         k = rng.choice([2, 3, 4, 5, 8])
         h = []
         for j in range(k):
-            qg = gen.QueryGen(rng, bad_nums=rng.random() < 0.3, newline_lexemes=rng.random() < 0.2)
+            qg = gen.QueryGen(rng, bad_nums=rng.random() < 0.3, newline_lexemes=rng.random() < 0.2,
+                              long_nums=rng.random() < 0.3)
             x = rng.random()
             if x < 0.15:
                 q = rng.choice(nasty)
